@@ -413,6 +413,16 @@ func genDur(r *Rng) laptimer.Duration {
 	}
 }
 
+// genSync: video sync offsets.  In C01's domain whole hundredths from zero up; for C13 (syntax only) also
+// offsets before the start of the video and sub-hundredth values.
+func genSync(r *Rng, domain bool) laptimer.SyncPoint {
+	d := time.Duration(r.Intn(100000)) * 10 * time.Millisecond
+	if !domain && r.Chance(0.4) {
+		d = time.Duration(r.Intn(400000)-200000)*time.Millisecond + time.Duration(r.Intn(1000))*time.Microsecond
+	}
+	return laptimer.SyncPoint(d)
+}
+
 func genTime(r *Rng) time.Time {
 	y := 1969 + r.Intn(100)
 	t := time.Date(y, time.Month(1+r.Intn(12)), 1+r.Intn(28), r.Intn(24), r.Intn(60), r.Intn(60), r.Intn(1000)*1000000, time.UTC)
@@ -502,7 +512,7 @@ func genDB(r *Rng, domain bool) *laptimer.DB {
 			l.Intermediates = append(l.Intermediates, laptimer.Intermediate{Time: genDur(r), Distance: genFixed(r, 1)})
 		}
 		for j := 0; j < r.Intn(3); j++ {
-			l.Videos = append(l.Videos, laptimer.Video{Overlaid: r.Bool(), URL: genText(r, domain, false, false), SyncPoint: laptimer.SyncPoint(time.Duration(r.Intn(100000)) * 10 * time.Millisecond)})
+			l.Videos = append(l.Videos, laptimer.Video{Overlaid: r.Bool(), URL: genText(r, domain, false, false), SyncPoint: genSync(r, domain)})
 		}
 		for j := 0; j < r.Intn(3); j++ {
 			l.Tags = append(l.Tags, genText(r, domain, true, false))
